@@ -36,7 +36,7 @@ REACH = ['precipitation/KWNEuler.py:PrecipitateModel._calcMassBalance', 'precipi
          'precipitation/KWNEuler.py:PrecipitateModel._updateParticleSizeDistribution',
          'precipitation/PopulationBalance.py:PopulationBalanceModel.getdXdtEuler',
          'precipitation/PopulationBalance.py:PopulationBalanceModel.addSizeClasses']
-MIN_NONTRIVIAL = {'quick': 12, 'thorough': 80}
+MIN_NONTRIVIAL = {'quick': 8, 'thorough': 80}
 CASE_TIMEOUT = 900
 CASE_TIMEOUT_THOROUGH = 1800
 MAX_INCONCLUSIVE_FRACTION = 0.05
@@ -50,7 +50,7 @@ MANIFEST = {
     'note': 'trusted: numpy; the grid-operation wrappers only copy state before/after the public calls',
     'technique': 'per-step invariant monitor (moments / documented-removal / number-balance oracles) on hooked state',
 }
-N_CASES = {'quick': 40, 'thorough': 320}
+N_CASES = {'quick': 32, 'thorough': 320}
 
 
 def plan(tier, seed):
@@ -63,7 +63,7 @@ def plan(tier, seed):
             cfg['pbm'].update({'cMax': 3e-9, 'bins': 30, 'minBins': 24, 'maxBins': 48, 'adaptive': True})
         cases.append({'cfg': cfg, 'weight': precip_gen.cfg_weight(cfg)})
     # age, then dissolve completely above the solvus (added after seeded change C02-b: stale statistics of an emptied phase)
-    for j in range(4 if tier == 'quick' else 24):
+    for j in range(3 if tier == 'quick' else 24):
         rng = core.case_rng(seed, PROPERTY, 5000 + j)
         cfg = precip_gen.gen_dissolution_config(rng, ['nialcr', 'alzr', 'nialcr', 'almgsi'][j % 4], tier)
         cases.append({'cfg': cfg, 'weight': 4e4 * cfg['max_steps'] / 100})
